@@ -165,8 +165,8 @@ fn scenario(wire: Wire, family: Family, thorough: bool) -> BoxedStrategy<Scenari
     let st = move || stream(wire, family, thorough);
     let streams = (st(), st(), st());
     match family {
-        Family::Split | Family::Fault | Family::Stall => (subset(1), streams, any::<bool>(), prop::bool::weighted(0.3), 0u8..3)
-            .prop_map(move |(sub, (a, b, c), gzip, early_flush, only)| {
+        Family::Split | Family::Fault | Family::Stall => (subset(1), streams, any::<bool>(), prop::bool::weighted(0.3), 0u8..3, prop_oneof![2 => Just(0u8), 1 => 1u8..8])
+            .prop_map(move |(sub, (a, b, c), gzip, early_flush, only, flip_encoding)| {
                 let mut all = [Some(a), Some(b), Some(c)];
                 for i in 0..3 {
                     if !sub[i] {
@@ -185,7 +185,7 @@ fn scenario(wire: Wire, family: Family, thorough: bool) -> BoxedStrategy<Scenari
                         }
                     }
                 }
-                Scenario { wire, gzip, streams: all, outage: None, early_flush, ending: Ending::Flush }
+                Scenario { wire, gzip, streams: all, outage: None, early_flush, ending: Ending::Flush, flip_encoding: if wire == Wire::Grpc { 0 } else { flip_encoding } }
             })
             .boxed(),
         Family::Outage => (
@@ -215,7 +215,7 @@ fn scenario(wire: Wire, family: Family, thorough: bool) -> BoxedStrategy<Scenari
                         }
                     }
                 }
-                Scenario { wire, gzip, streams: all, outage: Some((down, kind)), early_flush: false, ending: Ending::Flush }
+                Scenario { wire, gzip, streams: all, outage: Some((down, kind)), early_flush: false, ending: Ending::Flush, flip_encoding: 0 }
             })
             .boxed(),
         Family::Drop => (subset(1), streams, any::<bool>(), any::<bool>(), prop::sample::select(vec![500u16, 503, 429]), 0u8..3)
@@ -233,7 +233,7 @@ fn scenario(wire: Wire, family: Family, thorough: bool) -> BoxedStrategy<Scenari
                     let fault = if wire == Wire::Grpc { Fault::GrpcStatus(14) } else { Fault::Status(status) };
                     all[keep].as_mut().unwrap().faults = vec![FaultAt { pos: 0, fault }];
                 }
-                Scenario { wire, gzip, streams: all, outage: None, early_flush: false, ending }
+                Scenario { wire, gzip, streams: all, outage: None, early_flush: false, ending, flip_encoding: 0 }
             })
             .boxed(),
     }
@@ -309,6 +309,7 @@ fn main() {
             s.require("gzip:on", if quick { 100 } else { 4000 });
             s.require("gzip:off", if quick { 100 } else { 4000 });
             s.require("request:gzip-body-still>64KiB-compressed", if quick { 50 } else { 2000 });
+            s.require("encodings:signals-of-one-emitter-in-different-encodings", if quick { 20 } else { 800 });
             for f in ["status-5xx", "status-4xx", "close-before-read", "read-then-close", "grpc-status", "grpc-trailers-only-status", "grpc-http-status", "ack-then-close"] {
                 s.require(&format!("fault:{f}"), if quick { 4 } else { 200 });
             }
